@@ -8,6 +8,16 @@ import DuckModel.Lemmas.Utf8DecodeLemmas
 namespace Duck.JProps
 open Duck
 
+/-- equality of results is decidable (used to evaluate the model on concrete maps) -/
+instance instDecidableEqExcept {ε α : Type} [DecidableEq ε] [DecidableEq α] : DecidableEq (Except ε α) :=
+  fun a b =>
+    match a, b with
+    | .ok x, .ok y => if h : x = y then isTrue (h ▸ rfl) else isFalse (fun e => h (Except.ok.inj e))
+    | .error x, .error y =>
+      if h : x = y then isTrue (h ▸ rfl) else isFalse (fun e => h (Except.error.inj e))
+    | .ok _, .error _ => isFalse (fun e => by cases e)
+    | .error _, .ok _ => isFalse (fun e => by cases e)
+
 /-! ### characters -/
 
 theorem toNat_ofNat_small (n : Nat) (h : n < 0xd800) : (Char.ofNat n).toNat = n := by
@@ -821,6 +831,43 @@ theorem loadProps_lines (m : Entries) (h : SafeEntries m) :
     simp only [List.mem_map] at hl
     obtain ⟨e, he, rfl⟩ := hl
     exact ⟨lineOf_not_comment e (h e he), lineOf_countEndBs e (h e he)⟩
+
+
+
+/-! ### the hash map as an association list -/
+
+theorem insertKV_fresh (acc : Entries) (k v : Str) (h : k ∉ acc.map Prod.fst) :
+    insertKV acc k v = acc ++ [(k, v)] := by
+  induction acc with
+  | nil => rfl
+  | cons a r ih =>
+    obtain ⟨k', v'⟩ := a
+    simp only [List.map_cons, List.mem_cons, not_or] at h
+    rw [insertKV, if_neg (fun e => h.1 e.symm), ih h.2]
+    rfl
+
+theorem insertAll_fresh (l acc : Entries) (hd : (l.map Prod.fst).Nodup)
+    (hdis : ∀ k ∈ l.map Prod.fst, k ∉ acc.map Prod.fst) : insertAll acc l = acc ++ l := by
+  induction l generalizing acc with
+  | nil => simp [insertAll]
+  | cons e r ih =>
+    obtain ⟨k, v⟩ := e
+    simp only [List.map_cons, List.nodup_cons] at hd
+    have hk : k ∉ acc.map Prod.fst := hdis k (by simp)
+    have e1 : insertAll acc ((k, v) :: r) = insertAll (insertKV acc k v) r := by
+      simp [insertAll]
+    rw [e1, insertKV_fresh acc k v hk, ih _ hd.2]
+    · simp
+    · intro k' hk'
+      simp only [List.map_append, List.map_cons, List.map_nil, List.mem_append, List.mem_cons,
+        List.not_mem_nil, or_false, not_or]
+      refine ⟨hdis k' (by simp [hk']), ?_⟩
+      intro e; subst e; exact hd.1 hk'
+
+/-- a list with distinct keys is its own map -/
+theorem toMap_nodup (m : Entries) (h : (m.map Prod.fst).Nodup) : toMap m = m := by
+  have := insertAll_fresh m [] h (by simp)
+  simpa [toMap] using this
 
 
 end Duck.JProps
